@@ -571,6 +571,7 @@ func (p *Parser) parseProviderArgument(pkg *packages.Package, kessokuPackageScop
 			Provides:          result.Provides,
 			Requires:          result.Requires,
 			IsReturnError:     result.IsReturnError,
+			ErrorIndex:        result.ErrorIndex,
 			IsAsync:           result.IsAsync,
 			ReferencedImports: referencedImports,
 		})
@@ -585,6 +586,8 @@ type parseProviderTypeResult struct {
 	Requires      []types.Type
 	Provides      [][]types.Type
 	IsReturnError bool
+	// ErrorIndex is the position of the error among the provider's results (IsReturnError only).
+	ErrorIndex int
 	IsAsync       bool
 	IsStruct      bool
 	IsVariadic    bool
@@ -672,10 +675,16 @@ func (p *Parser) parseProviderType(pkg *packages.Package, providerType types.Typ
 		}
 
 		isReturnError := false
+		errorIndex := 0
 		provides := make([][]types.Type, 0, providerFnSig.Results().Len())
-		for v := range providerFnSig.Results().Variables() {
+		for i := range providerFnSig.Results().Len() {
+			v := providerFnSig.Results().At(i)
 			if types.Identical(v.Type(), types.Universe.Lookup("error").Type()) {
+				if isReturnError {
+					return nil, fmt.Errorf("provider has more than one error result")
+				}
 				isReturnError = true
+				errorIndex = i
 				continue
 			}
 
@@ -686,6 +695,7 @@ func (p *Parser) parseProviderType(pkg *packages.Package, providerType types.Typ
 			Requires:      requires,
 			Provides:      provides,
 			IsReturnError: isReturnError,
+			ErrorIndex:    errorIndex,
 			IsAsync:       false,
 			IsStruct:      false,
 			IsVariadic:    providerFnSig.Variadic(),
